@@ -401,6 +401,83 @@ def gate_strings(summ, include_out=False, pol=None):
     return out
 
 
+def field_strings(summ, field, pol):
+    labs = set()
+    for path, v in summ.ret_cells.items():
+        if not path or path[0] == field:
+            labs |= v
+    out = set()
+    for l in labs:
+        if isinstance(l, tuple) and l and l[0] in ("call", "lencmp", "elemcmp"):
+            s_ = label_str(l, pol)
+            if s_:
+                out.add(s_)
+    return out
+
+
+def subst_consts(facts, fn, pat):
+    """{const:NAME} / {pow2:NAME}: value of the module-level const NAME next to fn's type."""
+    if "{" not in pat:
+        return pat
+    mod = "::".join(norm_name(fn["name"]).split("::")[:-2])
+
+    def rep(m):
+        kind, nm = m.group(1), m.group(2)
+        rec = facts.data.get(mod + "::" + nm)
+        if rec is None or "bytes" not in rec:
+            return "<missing const %s>" % nm
+        v = int.from_bytes(bytes.fromhex(rec["bytes"]), "little")
+        return str(1 << v) if kind == "pow2" else str(v)
+    return re.sub(r"\{(const|pow2):(\w+)\}", rep, pat)
+
+
+def check_call_args(facts, run, prop, table, cfg):
+    """G10: a wrapper must pass the specified constant flags to the shared inner routine."""
+    n = 0
+    for ent in table.get("call_args", []):
+        if prop not in ent["props"]:
+            continue
+        matched = [fn for fn in facts.fns.values() if re.fullmatch(ent["fn"], norm_name(fn["name"]))]
+        if not matched:
+            run.oblige(ok=False)
+            run.add(Finding("G0", ent["fn"], "gates: anchor function %s not found" % ent["fn"], config=cfg, prop=prop))
+            continue
+        for fn in matched:
+            n += 1
+            ok = False
+            detail = "no call to %s" % ent["callee"]
+            for b in fn["blocks"]:
+                t = b["t"]
+                if t[0] != "call" or not re.fullmatch(ent["callee"], norm_name(t[1]["f"])):
+                    continue
+                tgt = facts.fns.get(t[1]["id"])
+                if tgt is None:
+                    continue
+                ok = True
+                for pname, want in ent["params"].items():
+                    idx = None
+                    for i in range(1, tgt["argc"] + 1):
+                        if tgt["locals"][i][1] == pname:
+                            idx = i - 1
+                    if idx is None or idx >= len(t[2]):
+                        ok = False
+                        detail = "callee has no parameter `%s`" % pname
+                        break
+                    c = const_int(t[2][idx])
+                    if c != want:
+                        ok = False
+                        detail = "argument `%s` is %s, specified constant is %s" % (
+                            pname, "not a constant" if c is None else c, want)
+                        break
+                break
+            run.oblige(ok=ok)
+            if not ok:
+                run.add(Finding("G10", "%s|%s" % (norm_name(fn["name"]), ",".join(sorted(ent["params"]))),
+                                "gates: %s (%s:%s): %s -- %s" % (fn["name"], fn["file"], fn["line"], detail, ent["why"]),
+                                config=cfg, site="%s:%s" % (fn["file"], fn["line"]), prop=prop))
+    return n
+
+
 def run_gates(facts, run, prop):
     table = load_table()
     eng = GateEngine(facts, GatePolicy(facts))
@@ -423,12 +500,15 @@ def run_gates(facts, run, prop):
         for fn in matched:
             n_fns += 1
             summ = eng.summary(fn)
-            have = gate_strings(summ, include_out=ent.get("include_out", False), pol=eng.policy)
+            have_all = gate_strings(summ, include_out=ent.get("include_out", False), pol=eng.policy)
             for g in ent["gates"]:
                 if g.get("props") and prop not in g["props"]:
                     continue
                 n_gates += 1
-                pat = g["src"]
+                pat = subst_consts(facts, fn, g["src"])
+                have = have_all
+                if "field" in g:
+                    have = field_strings(summ, g["field"], eng.policy)
                 ok = len([h for h in have if re.fullmatch(pat, h)]) >= g.get("min", 1)
                 run.oblige(ok=ok)
                 if ok:
@@ -442,13 +522,17 @@ def run_gates(facts, run, prop):
             for g in ent.get("forbid", []):
                 n_gates += 1
                 pat = g["src"]
-                bad = [h for h in have if re.fullmatch(pat, h)]
+                bad = [h for h in have_all if re.fullmatch(pat, h)]
                 run.oblige(ok=not bad)
                 if bad:
                     run.add(Finding("G1", "%s|forbid|%s" % (norm_name(fn["name"]), pat),
                                     "gates: in %s (%s:%s) the result depends on %s -- %s" % (
                                         fn["name"], fn["file"], fn["line"], bad[0], g["why"]),
                                     config=cfg, site="%s:%s" % (fn["file"], fn["line"]), prop=prop))
+    n_ca = check_call_args(facts, run, prop, table, cfg)
+    if prop == "C16":
+        from . import lmsstate
+        lmsstate.run_lmsstate(facts, run, prop)
     run.stats = getattr(run, "stats", {})
-    run.stats.update(gate_fns=n_fns, gates=n_gates, engine=eng.stats)
+    run.stats.update(gate_fns=n_fns, gates=n_gates, call_arg_rules=n_ca, engine=eng.stats)
     return eng
